@@ -424,3 +424,92 @@ func ruleTAKEFROM(c *Ctx) {
 		c.add(rule, "count:", token.NoPos, CountDropped, true, "only %d TakeFrom stores found", n)
 	}
 }
+
+// GUARD(set-alias): named sets are declared first (an empty node per name) and filled in a second
+// pass with `*c.out.Sets[i] = *node`. convertSet answers a plain reference to another named set
+// with that set's own node, which is still empty when the other set is declared later; copying
+// its content makes `%generate b = set(a);` the set {eoi} instead of a. The node copied into a
+// slot must therefore be a fresh node, or a convertSet result on a path where it is known not to
+// be one of the slots (false edge of slices.Contains(c.out.Sets, node)).
+func ruleSETALIAS(c *Ctx) {
+	const rule = "GUARD(set-alias)"
+	n := 0
+	for _, f := range c.SrcFuncs("compiler") {
+		for _, b := range f.Blocks {
+			for _, ins := range b.Instrs {
+				st, ok := ins.(*ssa.Store)
+				if !ok {
+					continue
+				}
+				// destination: *(c.out.Sets[i])
+				du, ok := st.Addr.(*ssa.UnOp)
+				if !ok || du.Op != token.MUL {
+					continue
+				}
+				ia, ok := du.X.(*ssa.IndexAddr)
+				if !ok || !strings.HasSuffix(vpath(ia.X), ".Sets") {
+					continue
+				}
+				src, ok := st.Val.(*ssa.UnOp)
+				if !ok || src.Op != token.MUL {
+					continue
+				}
+				n++
+				key := ssaFuncKey(f) + ":fill-slot"
+				// sources of the copied node
+				type edge struct {
+					v    ssa.Value
+					pred *ssa.BasicBlock
+					succ *ssa.BasicBlock
+				}
+				var edges []edge
+				if phi, ok := src.X.(*ssa.Phi); ok {
+					for i, e := range phi.Edges {
+						edges = append(edges, edge{e, phi.Block().Preds[i], phi.Block()})
+					}
+				} else {
+					edges = append(edges, edge{src.X, nil, b})
+				}
+				bad := ""
+				for _, e := range edges {
+					switch x := e.v.(type) {
+					case *ssa.Alloc:
+						continue // fresh node
+					case *ssa.Call:
+						var conds []gcond
+						if e.pred != nil {
+							conds = append(conds, edgeConds(e.pred, e.succ)...)
+							conds = append(conds, governing(e.pred)...)
+						} else {
+							conds = governing(e.succ)
+						}
+						okEdge := false
+						for _, g := range flattenConds(conds) {
+							call, isCall := g.V.(*ssa.Call)
+							if !isCall || g.Pol {
+								continue
+							}
+							if cal := call.Call.StaticCallee(); cal != nil && strings.HasPrefix(cal.Name(), "Contains") && len(call.Call.Args) == 2 &&
+								strings.HasSuffix(vpath(call.Call.Args[0]), ".Sets") && call.Call.Args[1] == ssa.Value(x) {
+								okEdge = true
+							}
+						}
+						if !okEdge {
+							bad = "the content of a convertSet result is copied into the slot without excluding that it is another named set's (possibly still empty) node"
+						}
+					default:
+						bad = "the copied node is neither a fresh node nor a checked convertSet result"
+					}
+				}
+				if bad == "" {
+					c.Ok(rule, key, st.Pos(), "the node copied into a named set's slot is fresh or known not to be another slot")
+				} else {
+					c.Bad(rule, key, st.Pos(), "%s: a set that merely names a set declared later becomes {eoi}", bad)
+				}
+			}
+		}
+	}
+	if n < 1 {
+		c.Lost(rule, "compiler.syntaxLoader:fill-slot", "no `*c.out.Sets[i] = *node` store found")
+	}
+}
